@@ -775,25 +775,35 @@ def SelRec.text (r : SelRec) : Cps := serItems r.nsUsed r.seq
 
 /-! ## SelectorList (selectorlist.py) -/
 
-/-- `Base._tokensupto2(tokenizer, listseponly=True)` (util.py:270-388): returns (chunk, rest) -/
+/-! `Base._tokensupto2(tokenizer, listseponly=True)` (util.py:270-388); the counters (util.py:353-365) -/
+def cntBrace (brace : Int) (v : Cps) : Int :=
+  if v == [123] then brace + 1 else if v == [125] then brace - 1 else brace
+def cntBracket (bracket : Int) (v : Cps) : Int :=
+  if v == [123] || v == [125] then bracket
+  else if v == [91] then bracket + 1 else if v == [93] then bracket - 1 else bracket
+def cntParant (parant : Int) (t : Tok) : Int :=
+  if t.val == [123] || t.val == [125] || t.val == [91] || t.val == [93] then parant
+  else if t.val == [40] || t.typ == .function then parant + 1
+  else if t.val == [41] then parant - 1 else parant
+
+/-- returns (chunk, rest) -/
 def uptoComma (brace bracket parant : Int) (acc : List Tok) : List Tok → List Tok × List Tok
   | [] => (acc.reverse, [])
   | t :: ts =>
     if t.typ == .eof then ((t :: acc).reverse, ts)                        -- :349-351
-    else
-      let v := t.val
-      let brace := if v == [123] then brace + 1 else if v == [125] then brace - 1 else brace
-      let bracket := if v == [123] || v == [125] then bracket
-        else if v == [91] then bracket + 1 else if v == [93] then bracket - 1 else bracket
-      let parant := if v == [123] || v == [125] || v == [91] || v == [93] then parant
-        else if v == [40] || t.typ == .function then parant + 1
-        else if v == [41] then parant - 1 else parant
-      if brace == 0 && bracket == 0 && parant == 0 && isSub v [44] then ((t :: acc).reverse, ts)   -- :369-372
-      else uptoComma brace bracket parant (t :: acc) ts
+    else if cntBrace brace t.val == 0 && cntBracket bracket t.val == 0 && cntParant parant t == 0
+        && isSub t.val [44] then ((t :: acc).reverse, ts)                 -- :369-372
+    else uptoComma (cntBrace brace t.val) (cntBracket bracket t.val) (cntParant parant t) (t :: acc) ts
 
 /-- state of `expected` in `SelectorList._setSelectorText`: `True` initially, the popped comma token, or `None` -/
 inductive ListExp | initial | comma | none
 deriving DecidableEq, Repr
+
+/-- `self._tokenvalue(selectortokens[-1]) == ','` (selectorlist.py:194) -/
+def lastIsComma (chunk : List Tok) : Bool :=
+  match chunk.getLast? with
+  | some t => t.val == [44]
+  | none => false
 
 /-- the `while True` loop (selectorlist.py:190-209); `fuel` ≥ number of tokens + 1 is enough -/
 def listLoop (ns : NsMap) : Nat → List Tok → ListExp → Bool → List SelRec → M (ListExp × Bool × List SelRec)
@@ -802,9 +812,8 @@ def listLoop (ns : NsMap) : Nat → List Tok → ListExp → Bool → List SelRe
     match uptoComma 0 0 0 [] toks with
     | ([], _) => pure (e, wf, acc.reverse)
     | (chunk, rest) =>
-      let lastIsComma := match chunk.getLast? with | some t => t.val == [44] | none => false
-      let seltoks := if lastIsComma then chunk.dropLast else chunk
-      let e := if lastIsComma then ListExp.comma else ListExp.none
+      let seltoks := if lastIsComma chunk then chunk.dropLast else chunk
+      let e := if lastIsComma chunk then ListExp.comma else ListExp.none
       do
         let r ← parseSel ns seltoks
         match r with
